@@ -35,7 +35,10 @@ PROPS = {
                  'the serving thread starts as root (precondition of every handler); rules R50-R56 (scoped_cred! expanded, libc::syscall(SYS_x) -> sys::x, scope-exit drops of the credential guards made explicit, pointer arguments named by their owner)'],
     ),
     'C06': dict(
-        vx_units=['vfs', 'pt'], kx=[], rx=['pt'],
+        vx_units=['vfs', 'pt', 'inodes'], kx=[], rx=['pt'],
+        # the `..`-at-the-export-root rewrite relies on the export root being known as inode 1 only: a root that can be forgotten can be re-registered under
+        # another number and then be walked out of (seed C06-c)
+        alias=[r'^C08\.forget\.root'],
         design_ref='DESIGN.md section 5, C06',
         not_covered=[
             'symlink / hard-link / rename-of-directory-in-use semantics: kernel behaviour behind libc calls (what is proved is which FLAGS reach openat and which inode TYPES are re-opened, with openat / InodeData::open_file as capability-guarded externals)',
